@@ -14,6 +14,9 @@ fn main() {
         usage();
     }
     tool::install_panic_hook();
+    if args[1] == "selftest" {
+        std::process::exit(cgtverif::selftest::run());
+    }
     if args[1] == "pdfdump" {
         debug_pdf_dump(&args[2]);
         return;
